@@ -907,7 +907,7 @@ def _gen_c17(rng, seed, tier):
     for _ in range(nops):
         pool = ["reindex_junctions", "reindex_junctions", "reindex_pipes", "reindex_elements", "continuous_junction",
                 "continuous_elements", "drop_junctions", "drop_pipes", "drop_elements_at_junctions",
-                "fuse_junctions", "select_subnet", "calc"]
+                "fuse_junctions", "select_subnet", "select_subnet", "extend_then_drop", "calc"]
         if scenario2:
             pool = ["reindex_junctions", "reindex_pipes", "reindex_pipes", "reindex_elements", "continuous_elements", "continuous_junction"]
         kind = rng.choice(pool)
@@ -920,7 +920,11 @@ def _gen_c17(rng, seed, tier):
     if scenario2:
         for o in ops:
             o["resolve"] = True
-    return {"engine": ENGINE, "prop": "C17", "seed": seed, "tier": tier, "program": program, "meta": meta, "ops": ops}
+    # options stored with the net: a subnet / relabelled net must be calculated with them as well
+    user_opts = rng.choice([None, None, {"friction_model": "colebrook"}, {"friction_model": "swamee-jain"},
+                            {"ambient_temperature": 278.15}])
+    return {"engine": ENGINE, "prop": "C17", "seed": seed, "tier": tier, "program": program, "meta": meta, "ops": ops,
+            "user_opts": user_opts}
 
 
 def _tag(net):
@@ -1046,6 +1050,8 @@ def _exec_c17(trace, res):
     meta = trace["meta"]
     net = netmodel.build(trace["program"])
     _tag(net)
+    if trace.get("user_opts"):
+        pp.set_user_pf_options(net, **trace["user_opts"])
     res.sig_parts.append(meta["family"])
     res.nontrivial = True
     state = _identity_state(net)
@@ -1101,8 +1107,29 @@ def _exec_c17(trace, res):
                 tb.drop_pipes(net, drop)
             elif kind == "drop_elements_at_junctions":
                 drop = rng.sample(J[1:], 1)
-                expect_removed = _attached(net, drop)
-                tb.drop_elements_at_junctions(net, drop)
+                ne, be = rng.choice([(True, True), (True, True), (True, False), (False, True)])
+                expect_removed = _attached(net, drop, node_elements=ne, branch_elements=be)
+                if (ne, be) == (True, True) and rng.random() < 0.5:
+                    tb.drop_elements_at_junctions(net, drop)
+                else:
+                    tb.drop_elements_at_junctions(net, drop, node_elements=ne, branch_elements=be)
+                res.count("cell:c17:drop_elements:%s%s" % ("n" if ne else "-", "b" if be else "-"))
+            elif kind == "extend_then_drop":
+                # the net grows after the last calculation (result tables have no rows for the new elements), then
+                # the new junction is dropped again: everything attached to it goes, nothing else
+                a = rng.choice(J)
+                nj = max(J) + rng.choice([1, 3])
+                pp.create_junction(net, pn_bar=float(net.junction.pn_bar.iloc[0]), tfluid_k=float(net.junction.tfluid_k.iloc[0]), index=nj)
+                npi = (max(P) + 1) if P else 0
+                pp.create_pipe_from_parameters(net, a, nj, 0.3, 100.0, index=npi)
+                si = (int(net.sink.index.max()) + 1) if "sink" in net and len(net.sink) else 0
+                pp.create_sink(net, nj, 1e-4, index=si)
+                net.junction.at[nj, "vtag"] = "junction#x%d" % oi
+                net.pipe.at[npi, "vtag"] = "pipe#x%d" % oi
+                net.sink.at[si, "vtag"] = "sink#x%d" % oi
+                state = _identity_state(net)
+                expect_removed = {"junction#x%d" % oi, "pipe#x%d" % oi, "sink#x%d" % oi}
+                tb.drop_junctions(net, [nj])
             elif kind == "fuse_junctions":
                 a, b = rng.sample(J, 2)
                 expect_removed = {net.junction.at[b, "vtag"]}
@@ -1112,9 +1139,19 @@ def _exec_c17(trace, res):
                 state = {tag: row for tag, row in state.items()}
                 state = _apply_fuse_to_state(state, jt)
             elif kind == "select_subnet":
-                sub_j = rng.sample(J, rng.randint(1, len(J)))
+                whole = rng.random() < 0.35
+                sub_j = list(J) if whole else rng.sample(J, rng.randint(1, len(J)))
+                if whole:
+                    rng.shuffle(sub_j)
                 sub_with_results = op.get("with_results") or rng.random() < 0.7
-                sub = tb.select_subnet(net, sub_j, include_results=sub_with_results)
+                sub_kw = {}
+                if rng.random() < 0.3:
+                    sub_kw["keep_everything_else"] = True
+                if rng.random() < 0.3:
+                    sub_kw["remove_unused_components"] = True
+                sub = tb.select_subnet(net, sub_j, include_results=sub_with_results, **sub_kw)
+                res.count("cell:c17:select:%s%s%s" % ("w" if whole else "p", "k" if sub_kw.get("keep_everything_else") else "-",
+                                                      "r" if sub_kw.get("remove_unused_components") else "-"))
             elif kind == "calc":
                 pass
         except Exception as e:
@@ -1155,6 +1192,31 @@ def _exec_c17(trace, res):
                 if tag in state and state[tag] != row and "MISSING" not in row:
                     res.violate("C17", "C17/untouched-changed:%s@select_subnet" % tag.split("#")[0], tag, oi)
                     break
+            if set(sub_j) == set(J):
+                # a complete supplied region (here: everything): every element must be there ...
+                for tag in sorted(set(state) - set(ss)):
+                    res.violate("C17", "C17/complete-region-lost-element:%s@select_subnet" % tag.split("#")[0], tag, oi)
+                    break
+                # ... and a calculation on the subnet reproduces the region's results
+                if base_res is not None and not _ill_posed(base_res):
+                    sub_calc = copy.deepcopy(sub)
+                    out = _solve(sub_calc, meta)
+                    if out == "nc" and _almost_converged(sub_calc):
+                        res.count("probe:slow-convergence-verdict-skipped")
+                    elif out != "ok":
+                        res.violate("C17", "C17/complete-region-subnet-does-not-solve:%s" % out, "", oi)
+                    else:
+                        d = _cmp_results(base_res, _results_by_tag(sub_calc), skip_t=_flowless_tags(sub_calc))
+                        if d:
+                            res.violate("C17", "C17/subnet-does-not-reproduce-region:%s" % d[0], ",".join(d)[:300], oi)
+                        res.count("probe:complete-region-recalculated")
+            if op["r"] % 10 < 3 and len(sub.junction) >= 2:
+                # the history goes on with the subnet
+                net = sub
+                state = _identity_state(net)
+                base_out = _solve(net, meta)
+                base_res = _results_by_tag(net) if base_out == "ok" else None
+                res.count("probe:history-continued-on-subnet")
             continue
         # ---- untouched elements unchanged (identity view) -----------------------------------------------
         now = _identity_state(net)
@@ -1220,12 +1282,20 @@ def _apply_fuse_to_state(state, jt):
     return out
 
 
-def _attached(net, junctions):
+def _node_element_tables(net):
+    from pandapipes.component_models.abstract_models.node_element_models import NodeElementComponent
+    return {c.table_name() for c in net.component_list if issubclass(c, NodeElementComponent)}
+
+
+def _attached(net, junctions, node_elements=True, branch_elements=True):
     tags = set()
     js = set(junctions)
     dropped_pipes = set()
+    node_tabs = _node_element_tables(net)
     for t, cols in REF_COLS.items():
         if t not in net or not len(net[t]) or "vtag" not in net[t]:
+            continue
+        if (t in node_tabs and not node_elements) or (t not in node_tabs and not branch_elements):
             continue
         for i in net[t].index:
             hit = any(net[t].at[i, c] in js for c in cols if c in net[t])
